@@ -332,6 +332,8 @@ def build(case):
         elif shape == "instpred":
             cells = {"calculation": f"instance('c')/root/item[name = ${{{t}}}]/label",
                      "label": f"L instance('c')/root/item[name = ${{{t}}}]/label l",
+                     # text after a complete lookup that merely looks like the start of another one stays text
+                     "hint": f"H instance('c')/root/item[name = ${{{t}}}]/label then instance( and instance('c') end",
                      "relevant": f"instance('c')/root/item[name = ${{{t}}} and cf = ${{{u}}}]/label = ${{{u}}}",
                      "choice_filter": f"name = ${{{t}}}"}
         elif shape == "trigger":
